@@ -55,6 +55,15 @@ SLICES = {"riscv": 2, "riscv:rvc": 3, "arm": 2, "arm:thumb": 2, "x86_64": 6, "mi
           "m68k": 2}
 PER_CLASS = {"quick": 60, "thorough": 1500}
 DATA_MNEMONICS = {"db", "dw", "dd", "dq", "dcd", "dcd=", ".byte", ".zero", "ds"}
+# classes not judged because the reference decoder is unreliable for them (stated narrowing):
+# LLVM 14's AVR disassembler reads valid `ld r22, X` (0x916c) as <unknown>, prints ldd's pointer register as a raw
+# number (`ld r5, 2` for `ldd r5, Y+0`) and relative branch targets as `<unknown>`, and crashes on some of them
+REF_UNRELIABLE = {"avr": {"ld", "ldd", "st", "std", "lpm", "lds", "sts", "rjmp", "brne", "breq", "brlt", "brge",
+                          "brcs", "brcc", "brsh", "brlo", "brmi", "brpl"},
+                  # m68k Bcc/bra/bsr are emitted in the 68020 form (8-bit displacement 0xff + 32-bit displacement);
+                  # LLVM 14's M68k decoder knows the 68000 forms only and reads 2 bytes
+                  "m68k": {"bne", "beq", "bge", "blt", "bgt", "ble", "bra", "bsr"}}
+PREFIX_MNEMONICS = {"rep"}    # x86 prefixes modelled as instructions: a lone prefix has no decoding
 MAX_UNPARSED_SHARE = 0.05
 
 
@@ -149,8 +158,178 @@ def avi_rvc_reserved(isa, ci, path, v):
                                                               "c.addi16sp", "c.lui", "c.addi")
 
 
+def encodable(isa, ci, a0):
+    """Does the assignment encode with its integers at 0 or 4? (templates for range probing must)"""
+    from vlib import isaenum, oprange
+
+    for z in (0, 4):
+        try:
+            with contextlib.redirect_stdout(io.StringIO()):
+                isaenum.build(isa, ci.cls, oprange.zeroed(ci.cls, a0, z)).encode()
+            return True
+        except BaseException:
+            continue
+    return False
+
+
+def av_arm_mcr_p10(isa, ci, a0, obj0):
+    return isa == "arm" and ci.mnemonic in ("mcr", "mrc") and bool({"p10", "p11"} & set(reg_names(obj0)))
+
+
+def ref_skip(isa, ci, obj0):
+    """Forms on which the reference tool itself crashes (llvm-objdump 14 segfaults on msp430 `push @rN[+]`)."""
+    return isa == "msp430" and ci.mnemonic == "push" and bool({"MemSrc", "MemSrcInc"} & set(alt_names(obj0)))
+
+
+def slot_key(ci, path):
+    """Integer operands owned by a constructor alternative (x86 RmMemDisp.disp, msp430 MemDst.imm ...) share one
+    probed range per (alternative class, operand): the range is a property of that constructor's field.  Operands
+    of the instruction class itself are probed per class."""
+    if any(isinstance(p, str) for p in path):
+        return ("~alt", owner_at(ci.cls, path).__name__, path[-1])
+    return (ci.key,) + tuple(path)
+
+
+def owner_at(cls, path):
+    """Constructor class that owns the integer operand at `path` (follows "altN" steps)."""
+    cur = cls
+    idx = None
+    for p in path:
+        if isinstance(p, int):
+            idx = p
+        else:
+            cur = cur.syntax.formal_arguments[idx]._cls[int(p[3:])]
+    return cur
+
+
+def avi_arm_shift_zero(isa, ci, path, v):
+    # LSR/ASR #0 in the shifter operand encode "shift by 32" (ARM ARM A8.4.1)
+    if isa == "arm" and v == 0 and len(path) > 1:
+        owner = owner_at(ci.cls, path).__name__.lower()
+        return "lsr" in owner or "asr" in owner or "ror" in owner
+    return False
+
+
+def avi_thumb_halfword(isa, ci, path, v):
+    return isa == "arm:thumb" and ci.mnemonic in ("strh", "ldrh") and v != 0 and len(path) == 1
+
+
+# ---- x86_64 -------------------------------------------------------------------
+
+
+def _is_rm32_unary(ci):
+    if ci.cls.__name__ not in ("Shr", "Shl", "Not", "Neg", "Dec", "Inc", "Jmp"):
+        return False
+    ops = ci.cls.syntax.formal_arguments
+    return bool(ops) and isinstance(ops[0]._cls, tuple) and any(a.__name__ == "RmReg32" for a in ops[0]._cls)
+
+
+def av_x86_shl(isa, ci, a0, obj0):
+    return isa == "x86_64" and ci.cls.__name__ == "Shl"
+
+
+def av_x86_shlcl(isa, ci, a0, obj0):
+    return isa == "x86_64" and ci.cls.__name__ == "ShlCl"
+
+
+def av_x86_rm32(isa, ci, a0, obj0):
+    return isa == "x86_64" and _is_rm32_unary(ci)
+
+
+def av_x86_high_byte(isa, ci, a0, obj0):
+    return isa == "x86_64" and bool({"ah", "ch", "dh", "bh"} & set(reg_names(obj0)))
+
+
+def av_x86_cvtsi2s_abs(isa, ci, a0, obj0):
+    return isa == "x86_64" and ci.cls.__name__ in ("Cvtsi2ss", "Cvtsi2sd") and "RmAbsLabel" in alt_names(obj0)
+
+
+def av_x86_lea_reg(isa, ci, a0, obj0):
+    return isa == "x86_64" and ci.mnemonic == "lea" and "RmReg64" in alt_names(obj0)
+
+
+def av_thumb_asr(isa, ci, a0, obj0):
+    return isa == "arm:thumb" and ci.mnemonic == "lsr" and ci.cls.__name__ == "lsr_ins"
+
+
+# ---- mips -----------------------------------------------------------------------
+
+
+def av_mips_shiftv(isa, ci, a0, obj0):
+    return isa == "mips" and ci.mnemonic in ("sllv", "srlv", "srav")
+
+
+def av_mips_jr(isa, ci, a0, obj0):
+    return isa == "mips" and ci.mnemonic in ("jr", "jalr")
+
+
+def av_mips_swr(isa, ci, a0, obj0):
+    return isa == "mips" and ci.mnemonic == "swr"
+
+
+def av_mips_lui(isa, ci, a0, obj0):
+    return isa == "mips" and ci.mnemonic == "lui"
+
+
+def av_avr_subi(isa, ci, a0, obj0):
+    return isa == "avr" and ci.mnemonic == "sbci"
+
+
+def av_avr_call(isa, ci, a0, obj0):
+    return isa == "avr" and ci.mnemonic == "call"
+
+
+def av_m68k_sub(isa, ci, a0, obj0):
+    return isa == "m68k" and ci.mnemonic in ("subb", "subw", "subl")
+
+
+def av_m68k_imm_long(isa, ci, a0, obj0):
+    return isa == "m68k" and ci.mnemonic.endswith("l") and "ImmediateEa" in alt_names(obj0)
+
+
+MSP430_SRC_ALTS = ("RegSrc", "MemSrc", "MemSrcInc", "MemSrcOffset")
+
+
+def av_msp430_special_src(isa, ci, a0, obj0):
+    """Source operands using r0/r2/r3 in a general addressing mode select immediate mode / the constant generators."""
+    from vlib import isaenum
+
+    if isa != "msp430":
+        return False
+    for op in obj0.syntax.formal_arguments:
+        if isaenum.operand_kind(op) == "alt":
+            v = op.__get__(obj0)
+            if type(v).__name__ in MSP430_SRC_ALTS and {"r0", "r2", "r3"} & set(reg_names(v)):
+                return True
+    return False
+
+
+def av_msp430_oneop_imm(isa, ci, a0, obj0):
+    return (isa == "msp430" and ci.mnemonic in ("rrc", "rrc.b", "rra", "rra.b", "swpb", "sxt")
+            and bool({"ConstSrc", "SmallConstSrc", "ConstLabelSrc"} & set(alt_names(obj0))))
+
+
 def av_rvc_cbnez(isa, ci, a0, obj0):
     return isa == "riscv:rvc" and ci.mnemonic == "c.bneqz"
+
+
+def _glued(stx):
+    from ppci.arch.encoding import Operand
+
+    s = stx.syntax
+    return any(isinstance(a, str) and a.isidentifier() and isinstance(b, Operand) and not isinstance(b._cls, tuple)
+               for a, b in zip(s, s[1:]))
+
+
+def av_glued(isa, ci, a0, obj0):
+    from vlib import isaenum
+
+    def any_glued(obj):
+        if _glued(obj.syntax):
+            return True
+        return any(isaenum.operand_kind(op) == "alt" and any_glued(op.__get__(obj))
+                   for op in obj.syntax.formal_arguments)
+    return any_glued(obj0)
 
 
 AVOID.update({
@@ -159,9 +338,29 @@ AVOID.update({
     "rvc-two-address-source-not-encoded": av_rvc_two_address,
     "rvc-reserved-encodings-accepted": av_rvc_reserved,
     "rvc-cbnez-spelt-cbneqz": av_rvc_cbnez,
+    "thumb-asr-prints-lsr": av_thumb_asr,
+    "mips-variable-shift-operands-swapped": av_mips_shiftv,
+    "mips-jr-jalr-encode-zero": av_mips_jr,
+    "mips-swr-wrong-opcode": av_mips_swr,
+    "mips-lui-has-source-register": av_mips_lui,
+    "avr-subi-prints-sbci": av_avr_subi,
+    "avr-call-encodes-rcall": av_avr_call,
+    "m68k-sub-encodes-add": av_m68k_sub,
+    "m68k-long-immediate-16bit": av_m68k_imm_long,
+    "msp430-special-source-registers-accepted": av_msp430_special_src,
+    "msp430-one-operand-accepts-immediate": av_msp430_oneop_imm,
+    "arm-mcr-p10-p11-is-fp-simd-space": av_arm_mcr_p10,
+    "x86-shl-encodes-shr": av_x86_shl,
+    "x86-shlcl-uses-sal-alias-encoding": av_x86_shlcl,
+    "x86-rm32-unary-encoded-64bit": av_x86_rm32,
+    "x86-high-byte-register-with-rex": av_x86_high_byte,
+    "x86-lea-accepts-register-source": av_x86_lea_reg,
+    "x86-cvtsi2s-abs-label-relocation-offset": av_x86_cvtsi2s_abs,
 })
 AVOID_INT.update({
     "rvc-reserved-encodings-accepted": avi_rvc_reserved,
+    "arm-shift-zero-encodes-32": avi_arm_shift_zero,
+    "thumb-strh-ldrh-offset-scaling": avi_thumb_halfword,
 })
 
 
@@ -207,8 +406,9 @@ def run_shard(spec):
     en = isaenum.Enumerator(isa, r)
     avoid = [k for k in spec["avoid"] if k in AVOID]
     avoid_int = [k for k in spec["avoid"] if k in AVOID_INT]
-    classes = [ci for ci in isaenum.classes(isa) if ci.mnemonic not in DATA_MNEMONICS
+    classes = [ci for ci in isaenum.classes(isa) if ci.mnemonic not in DATA_MNEMONICS | PREFIX_MNEMONICS
                and not ci.cls.__module__.endswith("data_instructions")]
+    classes = [ci for ci in classes if ci.mnemonic not in REF_UNRELIABLE.get(isa, ())]
     classes = [ci for i, ci in enumerate(classes) if i % spec["of"] == spec["slice"]]
 
     discarded, avoided, virtual, adjusted = {}, {}, {}, {}
@@ -240,6 +440,9 @@ def run_shard(spec):
             if isaenum.is_virtual(obj0):
                 virtual[ci.key] = virtual.get(ci.key, 0) + 1
                 break
+            if ref_skip(isa, ci, obj0):
+                disc("reference-decoder-crashes-on-this-form")
+                continue
             hit = None
             for key in avoid:
                 try:
@@ -257,18 +460,22 @@ def run_shard(spec):
                 avoided[hit] = avoided.get(hit, 0) + 1
                 continue
             for f in facts:
-                slot_facts.setdefault((ci.key,) + tuple(f["path"][1:]), f)
+                slot_facts.setdefault(slot_key(ci, tuple(f["path"][1:])), f)
             todo.append((ci, a0))
 
     # phase 2: probe the integer operand slots
     slots = {}
     for ci, a0 in todo:
         for p in oprange.int_paths(ci.cls, a0):
-            k = (ci.key,) + p
+            k = slot_key(ci, p)
             if k not in slots:
                 slots[k] = oprange.Slot(ci, p, a0)
-            elif len(slots[k].candidates) < 6:
+                slots[k].candidates = []
+            if len(slots[k].candidates) < 6 and encodable(isa, ci, a0):
                 slots[k].candidates.append(a0)
+    for s in slots.values():
+        if not s.candidates:
+            s.candidates = [s.template]
     prober = oprange.Prober(isa)
     prober.probe(list(slots.values()))
     slot_stat = {}
@@ -279,12 +486,22 @@ def run_shard(spec):
             problem_slots.append("%s %s %s: %s (%s) template %s" % (isa, s.ci.key, list(s.path), s.status, s.detail,
                                                                     s.template))
         fact = slot_facts.get(k)
+        if any(AVOID_INT[key](isa, s.ci, s.path, 1) and AVOID_INT[key](isa, s.ci, s.path, 2) for key in avoid_int):
+            s.status = "avoided"       # an open finding explains this operand; only its neutral value is drawn
+            slot_stat["avoided"] = slot_stat.get("avoided", 0) + 1
+            continue
         if s.status == "no-identity":
             violations.append({
                 "summary": "%s %s operand %s: no value reads back as printed (%s)" % (isa, s.ci.key, list(s.path),
                                                                                         s.detail),
                 "case": {"isa": isa, "slot": s.as_json(), "template": s.template,
                          "reads": {str(v): s.reads.get(v) for v in sorted(s.reads)[:40]}}})
+        elif s.status == "ok" and s.bit_holes:
+            k = s.bit_holes[0]
+            violations.append({
+                "summary": "%s %s operand %s: bit %d of the operand is not encoded (value %d reads back as %s) although "
+                           "higher bits are" % (isa, s.ci.key, list(s.path), k, 1 << k, s.reads.get(1 << k)),
+                "case": {"isa": isa, "slot": s.as_json(), "holes": s.bit_holes, "template": s.template}})
         elif s.status == "ok" and fact and fact.get("source") == "pattern" and fact.get("bits") \
                 and not fact.get("transform"):
             core_hi = (1 << (fact["bits"] - 1)) - 1
@@ -298,6 +515,8 @@ def run_shard(spec):
     # phase 3: final instances
     cyc = {}
     insts = []
+    post_encode = {}
+    avoid_post = [k for k in spec["avoid"] if k == "riscv-encode-rewrites-immediate" and isa.startswith("riscv")]
     for ci, a0 in todo:
         a = a0
         paths = oprange.int_paths(ci.cls, a0)
@@ -306,9 +525,12 @@ def run_shard(spec):
 
             a = copy.deepcopy(a0)
             for p in paths:
-                s = slots[(ci.key,) + p]
+                s = slots[slot_key(ci, p)]
                 if s.status != "ok":
                     v = s.neutral
+                    if any(AVOID_INT[k](isa, ci, p, v) for k in avoid_int):
+                        a = None
+                        break
                 else:
                     for _try in range(8):
                         if r.random() < 0.35 and s.hi > s.lo:
@@ -323,20 +545,36 @@ def run_shard(spec):
                     else:
                         v = s.neutral
                 oprange.set_at(a, p, v)
+            if a is None:
+                disc("only-avoided-values-available")
+                continue
         inst = isaenum.Instance(ci, a, [])
         if inst.error:
             disc("construct-rejected")
             continue
         try:
             with contextlib.redirect_stdout(io.StringIO()):
-                data = bytes(inst.fresh().encode())
+                enc_obj = inst.fresh()
+                data = bytes(enc_obj.encode())
+                after = str(enc_obj)
         except BaseException:
             disc("encode-rejected")
             continue
+        if after != inst.text and "riscv-encode-rewrites-immediate" not in avoid_post:
+            post_encode.setdefault(ci.key, (inst, after))
         if not data:
             disc("encodes-to-nothing")
             continue
         insts.append((ci, inst, data))
+
+    # encode() must not change what the instruction prints (the printed operand would no longer be the
+    # encoded one): `addi x5, x6, -12` prints `addi x5, x6, 4084` after encoding
+    for key, (inst, after) in sorted(post_encode.items()):
+        if len(violations) < 14:
+            violations.append({
+                "summary": "%s %s: prints `%s` before encode() and `%s` after it" % (isa, key, inst.text, after),
+                "case": dict(inst.describe(), text_after_encode=after),
+                "replay_spec": {"cases": [[isa, key, inst.assignment]], "post_encode": True}})
 
     # phase 4: decode and compare
     evals = 0
@@ -345,6 +583,8 @@ def run_shard(spec):
     seen = set()
     viol_cls = {}
     uniq = []
+    tool_failed = []
+    reloc_stat = {}
     for ci, inst, data in insts:
         k = (ci.key, inst.text)
         if k in seen:
@@ -355,11 +595,14 @@ def run_shard(spec):
     B = 2500
     for i in range(0, len(uniq), B):
         part = uniq[i:i + B]
+        part, targets = relocate(isa, part, r, reloc_stat)
         dec = refdis.decode(isa, [d for _, _, d in part])
-        for (ci, inst, data), d in zip(part, dec):
-            verdict, detail = judge(isa, ci, inst, data, d)
+        for (ci, inst, data), d, tg in zip(part, dec, targets):
+            verdict, detail = judge(isa, ci, inst, data, d, tg)
             if verdict == "tool":
                 disc("reference-tool-failed")
+                if len(tool_failed) < 6:
+                    tool_failed.append("%s %s `%s` %s" % (isa, ci.key, inst.text, data.hex()))
                 continue
             if verdict == "unparsed":
                 per["unparsed"] += 1
@@ -397,29 +640,97 @@ def run_shard(spec):
             isa, spec["slice"], per["unparsed"], total))
     observed = {"per_isa": {isa: per}, "isas": {isa: 1}, "slots": slot_stat,
                 "virtual_listed_not_judged": {isa: virtual}, "avoided_by_open_finding": avoided, "adjusted_by_open_finding": adjusted,
-                "problem_slots": problem_slots[:40], "probe_instances": prober.probe_instances, "decoder_runs": prober.decoder_runs}
+                "problem_slots": problem_slots[:40], "post_encode_text_changed": len(post_encode), "relocations": reloc_stat, "reference_tool_failed_on": tool_failed, "probe_instances": prober.probe_instances, "decoder_runs": prober.decoder_runs}
     return {"evaluations": evals, "nontrivial_hashes": sorted(hashes), "observed": observed, "discarded": discarded,
             "samples": samples, "violations": violations, "inconclusive": inconclusive}
 
 
-def judge(isa, ci, inst, data, d):
+DISTANCES = (64, -64, 16, -16, 32)    # small: inside every relocation's range (range edges are C10/C11's)
+
+
+def relocate(isa, part, r, stat):
+    """Give label operands numeric values: apply each instance's relocations the way the linker does.
+
+    Returns the instances with patched bytes and, per instance, None (no label / not applied) or
+    (S, P, d): symbol value, address of the instance, distance.  An instance whose relocation cannot be
+    applied with any of a few distances stays unrelocated (its label then matches any integer)."""
+    from vlib import refdis, isaenum
+
+    arch = isaenum.get_arch(isa)
+    _, spans = refdis.layout(isa, [d for _, _, d in part])
+    out, targets = [], []
+    for (ci, inst, data), (off, size) in zip(part, spans):
+        tg = None
+        try:
+            rels = inst.fresh().relocations()
+        except BaseException:
+            rels = []
+        if rels:
+            order = list(DISTANCES)
+            r.shuffle(order)
+            for d in order:
+                if off + d < 0:
+                    continue       # keep symbol values non-negative (addresses)
+                try:
+                    buf = bytearray(data)
+                    for rel in rels:
+                        rcls = arch.isa.relocation_map[rel.name]
+                        ro = rcls(None, offset=rel.offset, addend=rel.addend)
+                        n = ro.size()
+                        piece = ro.apply(off + d, bytearray(buf[rel.offset:rel.offset + n]), off + rel.offset)
+                        assert len(piece) == n
+                        buf[rel.offset:rel.offset + n] = piece
+                    data = bytes(buf)
+                    tg = (off + d, off, d)
+                    stat[rels[0].name] = stat.get(rels[0].name, 0) + 1
+                    break
+                except BaseException:
+                    continue
+            if tg is None:
+                stat["not-applied:" + rels[0].name] = stat.get("not-applied:" + rels[0].name, 0) + 1
+        out.append((ci, inst, data))
+        targets.append(tg)
+    return out, targets
+
+
+def label_values(isa, tg, size):
+    """Integers a reference may legitimately print for a label with value S seen from address P."""
+    if tg is None:
+        return None
+    S, P, d = tg
+    vals = {S, d, S & 0xFFFFFFFF, S & 0xFFFFFFFFFFFFFFFF, S & 0x0FFFFFFF, S & 0xFFFF}   # addresses wrap in the reference's address space
+    for k in (2, 4, 8, size):          # pc bias of the ISA / end of instruction
+        vals.add(d - k)
+    vals.add(d + 4)                    # riscv %pcrel_lo: relative to the auipc one instruction earlier
+    vals.add((d - 4) & ~3 if isa == "arm:thumb" else d)   # thumb: Align(PC, 4)
+    # hi/lo parts of absolute relocations (riscv %hi/%lo, avr low()/high(), mips)
+    vals.update({S & 0xFFF, (S + 0x800) >> 12, S & 0xFFFF, S >> 16, S & 0xFF, (S >> 8) & 0xFF,
+                 d & 0xFFF, (d + 0x800) >> 12})
+    for x in (S, d):
+        vals.add(((x & 0xFFF) ^ 0x800) - 0x800)            # sign-extended low 12 bits (riscv %lo)
+        vals.add(((x + 0x800) >> 12) & 0xFFFFF)             # 20-bit upper part (riscv %hi), wrapped
+    vals.update({v & 0xFFFF for v in list(vals)})    # 16-bit displacements printed unsigned (llvm m68k)
+    return vals
+
+
+def judge(isa, ci, inst, data, d, tg=None):
     from vlib import refdis, oprange
 
     if d.status in ("tool-crash", "missing"):
         return "tool", None
     if d.status == "invalid":
-        if isa == "m68k":
+        if isa in ("m68k", "msp430"):
             return "reference-incomplete", None
         return "violation", "reference reads the bytes as invalid"
     if d.status == "length":
         return "violation", "length: ppci %d bytes, reference decodes %s" % (len(data), d.nbytes)
     labels = oprange.labels_of(ci.cls, inst.assignment)
-    p = refdis.norm_ppci(isa, inst.text, labels)
+    p = refdis.norm_ppci(isa, inst.text, labels, ci.mnemonic)
     rr = refdis.norm_ref(isa, d.text)
     if p is None or rr is None:
         return "unparsed", None
     m, atoms, why = refdis.rewrite(isa, *p)
-    ok, det = refdis.same(isa, (m, atoms), rr)
+    ok, det = refdis.same(isa, (m, atoms), rr, label_values(isa, tg, len(data)))
     if ok:
         return "ok", None
     return "violation", det
@@ -432,7 +743,11 @@ def replay(spec):
     for isa, key, assignment in spec["cases"]:
         ci = isaenum.class_by_key(isa, key)
         inst = isaenum.Instance(ci, assignment, [])
-        data = bytes(inst.fresh().encode())
+        o = inst.fresh()
+        data = bytes(o.encode())
+        if spec.get("post_encode") and str(o) != inst.text:
+            out["violations"].append({"summary": "%s %s: prints `%s` before encode() and `%s` after it" % (
+                isa, key, inst.text, str(o)), "case": inst.describe()})
         d = refdis.decode(isa, [data])[0]
         verdict, detail = judge(isa, ci, inst, data, d)
         out["evaluations"] += 1
@@ -440,3 +755,275 @@ def replay(spec):
             out["violations"].append({"summary": "%s %s: `%s` = %s decodes as `%s` (%s)" % (
                 isa, key, inst.text, data.hex(), d.text, detail), "case": inst.describe()})
     return out
+
+
+# ---------------------------------------------------------------------------
+# witness probes of the open findings
+
+
+def _witness(isa, obj_fn, labels=("lab1",)):
+    """None if one hand-built instance decodes as printed, else what the reference sees."""
+    from vlib import isaenum, refdis
+
+    isaenum.get_arch(isa)
+    obj = obj_fn()
+    text = str(obj)
+    data = bytes(obj_fn().encode())
+    d = refdis.decode(isa, [data])[0]
+    if d.status == "invalid":
+        return "%s `%s` = %s: reference reads the bytes as invalid" % (isa, text, data.hex())
+    if d.status != "ok":
+        return "%s `%s` = %s: reference decodes %s bytes as `%s`" % (isa, text, data.hex(), d.nbytes, d.text)
+    mn = None
+    for e in obj.syntax.syntax:
+        if isinstance(e, str) and not e.isspace():
+            mn = (mn or "") + e
+        else:
+            break
+    p = refdis.norm_ppci(isa, text, labels, mn)
+    r = refdis.norm_ref(isa, d.text)
+    if p is None or r is None:
+        return None
+    m, atoms, _ = refdis.rewrite(isa, *p)
+    ok, det = refdis.same(isa, (m, atoms), r)
+    return None if ok else "%s `%s` = %s decodes as `%s` (%s)" % (isa, text, data.hex(), d.text, det)
+
+
+def probe_riscv_ble():
+    from ppci.arch.riscv.instructions import Ble
+
+    return _witness("riscv", lambda: Ble(_x(5), _x(6), "lab1"))
+
+
+def probe_riscv_rewrite():
+    from ppci.arch.riscv.instructions import Addi
+
+    o = Addi(_x(5), _x(6), -12)
+    before = str(o)
+    o.encode()
+    return None if str(o) == before else "riscv: `%s` prints `%s` after encode()" % (before, str(o))
+
+
+def _rvc(name):
+    from ppci.arch.riscv import rvc_instructions as rc
+
+    return getattr(rc, name)
+
+
+def _x(n):
+    from ppci.arch.riscv.registers import RiscvRegister
+
+    return [r for r in RiscvRegister.all_registers() if r.name == "x%d" % n][0]
+
+
+def probe_rvc_creg():
+    return _witness("riscv:rvc", lambda: _rvc("CSub")(_x(2), _x(3)))
+
+
+def probe_rvc_two_address():
+    return _witness("riscv:rvc", lambda: _rvc("CSrli")(_x(9), _x(12), 3))
+
+
+def probe_rvc_reserved():
+    return _witness("riscv:rvc", lambda: _rvc("CMovr")(_x(8), _x(0)))
+
+
+def probe_rvc_cbnez():
+    return _witness("riscv:rvc", lambda: _rvc("CBnez")(_x(9), "lab1"))
+
+
+def probe_arm_shift_zero():
+    from ppci.arch.arm import arm_instructions as ai
+    from ppci.arch.arm.registers import R1, R2
+
+    return _witness("arm", lambda: ai.Mov2(R1, R2, ai.ShiftAsr(0)))
+
+
+def probe_arm_mcr():
+    from ppci.arch.arm import arm_instructions as ai
+    from ppci.arch.arm.registers import R1, Coproc, Coreg
+
+    p10 = [r for r in Coproc.all_registers() if r.name == "p10"][0]
+    c = Coreg.all_registers()
+    return _witness("arm", lambda: ai.Mcr(p10, 2, R1, c[3], c[4], 1))
+
+
+def probe_thumb_halfword():
+    from ppci.arch.arm import thumb_instructions as ti
+    from ppci.arch.arm.registers import R1, R2
+
+    return _witness("arm:thumb", lambda: ti.Strh(R1, R2, 2)) or _witness("arm:thumb", lambda: ti.Ldrh(R1, R2, 2))
+
+
+def probe_thumb_asr():
+    from ppci.arch.arm import thumb_instructions as ti
+    from ppci.arch.arm.registers import R1, R2
+
+    return _witness("arm:thumb", lambda: ti.Asr(R1, R2))
+
+
+def _x86():
+    from ppci.arch.x86_64 import instructions as xi
+
+    return xi
+
+
+def _x86cls(name, width):
+    xi = _x86()
+    want = {16: "RmReg16", 32: "RmReg32", 64: "RmReg64"}[width]
+    for c in xi.isa.instructions:
+        if c.__name__ == name and c.syntax and isinstance(c.syntax.formal_arguments[0]._cls, tuple) and \
+                any(a.__name__ == want for a in c.syntax.formal_arguments[0]._cls):
+            return c
+    raise KeyError(name)
+
+
+def probe_x86_shl():
+    from ppci.arch.x86_64.registers import rcx
+
+    xi = _x86()
+    return _witness("x86_64", lambda: _x86cls("Shl", 64)(xi.RmReg64(rcx)))
+
+
+def probe_x86_shlcl():
+    from ppci.arch.x86_64.registers import rdx
+
+    xi = _x86()
+    return _witness("x86_64", lambda: _x86cls("ShlCl", 64)(xi.RmReg64(rdx)))
+
+
+def probe_x86_rm32():
+    from ppci.arch.x86_64.registers import eax
+
+    xi = _x86()
+    return _witness("x86_64", lambda: _x86cls("Not", 32)(xi.RmReg32(eax)))
+
+
+def probe_x86_high_byte():
+    from ppci.arch.x86_64.registers import ah, bl
+
+    xi = _x86()
+    return _witness("x86_64", lambda: xi.MovRegRm8(ah, xi.RmReg8(bl)))
+
+
+def probe_x86_lea():
+    from ppci.arch.x86_64.registers import rax, rbx
+
+    xi = _x86()
+    return _witness("x86_64", lambda: xi.Lea(rax, xi.RmReg64(rbx)))
+
+
+def probe_x86_cvtsi2s():
+    """The abs32 relocation of `cvtsi2ss xmm, [label]` points one byte before the displacement."""
+    from ppci.arch.x86_64 import sse2_instructions as s
+    from ppci.arch.x86_64.registers import xmm_single_mp
+
+    xi = _x86()
+    o = s.Cvtsi2ss(xmm_single_mp[1], xi.RmAbsLabel("foo"))
+    data = bytes(o.encode())
+    rel = o.relocations()[0]
+    want = len(data) - 4
+    return None if rel.offset == want else (
+        "x86_64 `%s` = %s: abs32 relocation at offset %d, the 32-bit displacement is at %d" % (
+            o, data.hex(), rel.offset, want))
+
+
+def _mips_regs():
+    from ppci.arch.mips import instructions as mi
+
+    return mi, {r.name: r for r in mi.MipsRegister.all_registers()}
+
+
+def probe_mips_shiftv():
+    mi, r = _mips_regs()
+    return _witness("mips", lambda: mi.Sllv(r["a0"], r["a1"], r["v0"]))
+
+
+def probe_mips_jr():
+    mi, r = _mips_regs()
+    o = mi.Jr(r["a0"])
+    data = bytes(o.encode())
+    return "mips `%s` encodes as %s (all zero: the class attribute is spelt `patters`)" % (o, data.hex()) \
+        if data == bytes(4) else None
+
+
+def probe_mips_swr():
+    mi, r = _mips_regs()
+    return _witness("mips", lambda: mi.Swr(r["a0"], 4, r["a1"]))
+
+
+def probe_mips_lui():
+    mi, r = _mips_regs()
+    return _witness("mips", lambda: mi.Lui(r["a0"], r["a1"], 5))
+
+
+def probe_avr_subi():
+    from ppci.arch.avr.instructions import Subi
+    from ppci.arch.avr.registers import r17
+
+    return _witness("avr", lambda: Subi(r17, 5))
+
+
+def probe_avr_call():
+    from ppci.arch.avr import instructions as ai
+
+    return _witness("avr", lambda: ai.Call("lab1"))
+
+
+def probe_m68k_sub():
+    from ppci.arch.m68k import instructions as mi
+    from ppci.arch.m68k.registers import D1, D2
+
+    return _witness("m68k", lambda: mi.Subl(mi.DataRegEa(D1), D2))
+
+
+def probe_m68k_imm_long():
+    from ppci.arch.m68k import instructions as mi
+    from ppci.arch.m68k.registers import D1
+
+    return _witness("m68k", lambda: mi.Andl(mi.ImmediateEa(5), D1))
+
+
+def probe_msp430_special_src():
+    from ppci.arch.msp430 import instructions as mi
+    from ppci.arch.msp430.registers import r2, r7
+
+    movw = [c for c in mi.isa.instructions if c.__name__ == "Movw"][0]
+    return _witness("msp430", lambda: movw(mi.MemSrc(r2), mi.RegDst(r7)))
+
+
+def probe_msp430_oneop():
+    from ppci.arch.msp430 import instructions as mi
+
+    swpb = [c for c in mi.isa.instructions if c.__name__ == "Swpb"][0]
+    return _witness("msp430", lambda: swpb(mi.ConstSrc(5)))
+
+
+PROBES.update({
+    "riscv-ble-prints-bge": probe_riscv_ble,
+    "riscv-encode-rewrites-immediate": probe_riscv_rewrite,
+    "rvc-compressed-register-wraps": probe_rvc_creg,
+    "rvc-two-address-source-not-encoded": probe_rvc_two_address,
+    "rvc-reserved-encodings-accepted": probe_rvc_reserved,
+    "rvc-cbnez-spelt-cbneqz": probe_rvc_cbnez,
+    "arm-shift-zero-encodes-32": probe_arm_shift_zero,
+    "arm-mcr-p10-p11-is-fp-simd-space": probe_arm_mcr,
+    "thumb-strh-ldrh-offset-scaling": probe_thumb_halfword,
+    "thumb-asr-prints-lsr": probe_thumb_asr,
+    "x86-shl-encodes-shr": probe_x86_shl,
+    "x86-shlcl-uses-sal-alias-encoding": probe_x86_shlcl,
+    "x86-rm32-unary-encoded-64bit": probe_x86_rm32,
+    "x86-high-byte-register-with-rex": probe_x86_high_byte,
+    "x86-lea-accepts-register-source": probe_x86_lea,
+    "x86-cvtsi2s-abs-label-relocation-offset": probe_x86_cvtsi2s,
+    "mips-variable-shift-operands-swapped": probe_mips_shiftv,
+    "mips-jr-jalr-encode-zero": probe_mips_jr,
+    "mips-swr-wrong-opcode": probe_mips_swr,
+    "mips-lui-has-source-register": probe_mips_lui,
+    "avr-subi-prints-sbci": probe_avr_subi,
+    "avr-call-encodes-rcall": probe_avr_call,
+    "m68k-sub-encodes-add": probe_m68k_sub,
+    "m68k-long-immediate-16bit": probe_m68k_imm_long,
+    "msp430-special-source-registers-accepted": probe_msp430_special_src,
+    "msp430-one-operand-accepts-immediate": probe_msp430_oneop,
+})
